@@ -1,7 +1,7 @@
 #!/usr/bin/env python3
 """Tie A, part 2: a translator from a small subset of Rust to Lean 4, run on every check.
 
-  tools/rs2lean.py            (reads $PNG_REPO or /repo, writes lean/PngVerif/Generated/Kernels.lean)
+  tools/rs2lean.py            (reads $PNG_REPO or /repo, writes lean/PngVerif/Generated/Kernels<Group>.lean)
 
 It translates the straight-line arithmetic kernels of image-png listed in KERNELS below (Paeth predictors, sample
 counts, row-length arithmetic, frame-rectangle validation, the inflate buffer's growth rule, ...) into Lean
@@ -23,13 +23,71 @@ saturating_add saturating_sub checked_add checked_sub checked_mul into ok and ca
 Semantics: exact integers; `as T` wraps into T; `wrapping_*` wrap; `saturating_*` clamp; `checked_*` give `none`
 outside T; `usize`/`isize` are 64 bits wide; `Result<(), E>` is an `Int` (0 = Ok(()), k = index of the error name in
 the kernel's `errors` list); a comparison of `Option`s is Rust's (`None < Some(_)`).
+
+Extensions for the groups Enums, ReaderGeom, EncoderSetters (anything not listed raises `Unsupported`, nothing is guessed):
+
+* Discriminant enums are read from the files listed in ENUMS (common.rs, filter.rs); `Option<Enum>` results are `Option Int`
+  (`Some(E::V)` = `some <discriminant>`); `Self` in types and paths is the `impl` type; a tuple result `(A, B)` is `Int × Int`
+  (Bool components stay `Bool`); `let (a, b) = <call of a translated function>` binds the projections.
+* `x & <literal>` on an UNSIGNED value and a non-negative literal = the sum of `x / 2^k % 2 * 2^k` over the bits k of the literal
+  (`x & 32` = `x / 32 % 2 * 32`).  No other bit operation.
+* A newtype parameter pattern `Name(x): Name` with `struct Name(pub [T; N]);` (read from the same file): N parameters
+  `x_0 .. x_{N-1}` of type T; `x[k]` only with a literal k < N.
+* `match` arms may have guards (`pat if g => e`: taken when the pattern matches and g, evaluated only then, is true; the `_ok` of g
+  is demanded exactly when the pattern matches and no earlier arm was taken).  An unguarded catch-all must be the last arm.
+* Struct state: `fields` may be keyed by dotted paths (`"self.info": {"width": "u32"}` -> parameter `self_info_width`).
+  `opts` declares `Option<struct>` fields (`"self.info.frame_control": {fields}` -> a Bool parameter `.._is_some` and one
+  parameter per field, meaningful when the Bool is true).  `x.is_some()`, `x.is_none()`, `if let Some(ref mut v) = x {..} else {..}`,
+  `if let Some(v) = x`, `match x { Some(v) [if g] => .., None => .., _ => .. }` test the Bool; `v` is a NAME for the fields of x
+  (`v.f` reads, and with `ref mut` / `&mut x` also `v.f = e` assigns, the parameter `.._f`).  A binding without `ref` (or a
+  `let v = <path>`) is a copy: the translator refuses any assignment to that path while the copy is in scope, so reading the
+  original through the name is exact.  `x = None;`, `x = Some(<struct local>)`, `x = Some(Name {..})` assign the Bool and ALL fields
+  (the declared field set must equal the struct's field set in the source).
+* `let v = Name { f: e, g, ..Default::default() }`: one Lean `let` per field in the order of evaluation; the base is read from
+  `impl Default for Name` (must be a single struct literal); struct declarations are read from the files under `structs`.
+* `outputs` entries `p.q.f` (field f of path p.q) and `p.q?` (is-Some of an Option field).  A function with outputs AND a result
+  returns `(result, outputs..)` at the end of every path; the position (tail of the function vs. a value that is used) is tracked,
+  and an explicit `return` inside an expression whose value is used is refused.  `else if` chains without a final `else` are
+  statements (control continues after them).
+* `flags` declares a field of a `bitflags!` type (`"self.transform": ("Transformations", file)`): the translator reads the constants of
+  the `bitflags!` declaration; every non-zero constant must be a single bit of its own (else Unsupported) and becomes one Bool
+  parameter `<path>_<CONST>` in declaration order (so a new flag changes the signature); zero constants (IDENTITY) are the empty set.
+  A value of the type is thus the set of its single-bit flags (values with bits outside the declaration, which only
+  `from_bits_retain` can make, are not represented).  `t == T::X` / `!=` = all Bools equal to those of the constant set,
+  `t.contains(S)` = all flags of S set (true for the empty set), `t.intersects(S)` = some flag of S set (false for the empty
+  set), `t.is_empty()`, `t.is_all()`; S = `T::A`, `T::A | T::B`, `T::empty()`, `T::all()`.
+* `structcalls` declares an accessor that is taken as GIVEN (`"self.info()": ("info", "Info<'_>")`: the current `Info`, a struct
+  path `info` whose fields are declared like any other).  Calling a function translated before on `self` or on such a path passes
+  the caller's parameters of the same origin (field / flag / is-Some) to the callee (`self` of the callee = that path); the caller
+  must declare them with the same types.  `Type::f(args)` calls a translated associated function; `.unwrap()` / `.expect(..)` on
+  an `Option` value is `Option.getD _ 0` with `_ok` demanding `isSome` (a panic site).
+* `payload` declares a parameter that is an enum whose variants wrap one struct each (`InterlaceInfo`): parameter `<p>_tag` = index of
+  the variant in the enum declaration (read from the source), and the declared fields of the declared variants
+  (`<p>_<Variant>_<field>`); patterns `E::V(_)`, `E::V(S { f, g: h, .. })`, `_`.
+* `fixed=True`: every declared flag / field / Option field is a parameter, in the order of the declaration in KERNELS, whether the body
+  uses it or not (the old groups keep "order of first use"), so that the theorem statements do not depend on the order in which the
+  body reads the state.
+* Generated group files import `KernelsCommon` and the groups whose functions they call.
 """
 import os, re, sys, json
 
 ROOT = os.path.join(os.path.dirname(os.path.abspath(__file__)), "..")
 REPO = os.environ.get("PNG_REPO", "/repo")
 OUTDIR = os.path.join(ROOT, "lean", "PngVerif", "Generated")
-GROUPS = ["Common", "Filter", "Adam7", "Stream", "Zlib"]   # a group may call functions of the groups before it
+GROUPS = ["Common", "Filter", "Adam7", "Stream", "Zlib", "Enums", "ReaderGeom", "EncoderSetters"]   # a group may call functions of the groups before it
+
+# the part of a `Reader` the geometry functions read: the transformation flags (one Bool per flag of the `bitflags!` declaration), the
+# current `Info` (`self.info()`, a struct the translator treats as given: colour type, depth, `trns.is_some()`)
+READER_STATE = dict(flags={"self.transform": ("Transformations", "src/common.rs")}, structcalls={"self.info()": ("info", "Info<'_>")},
+                    fields={"info": {"color_type": "ColorType", "bit_depth": "BitDepth"}}, opts={"info.trns": {}})
+READER_STATE_SIZE = dict(READER_STATE, fields={"info": {"color_type": "ColorType", "bit_depth": "BitDepth", "width": "u32", "height": "u32"}})
+SETTER_ERRORS = ["OutOfBounds", "ZeroWidth", "ZeroHeight", "NotAnimated"]
+FCTL_RECT = {"width": "u32", "height": "u32", "x_offset": "u32", "y_offset": "u32"}
+FCTL_ALL = {"sequence_number": "u32", "width": "u32", "height": "u32", "x_offset": "u32", "y_offset": "u32", "delay_num": "u16", "delay_den": "u16",
+            "dispose_op": "DisposeOp", "blend_op": "BlendOp"}
+# field-less enums whose discriminants are read from the source: (file, name)
+ENUMS = [("src/common.rs", "ColorType"), ("src/common.rs", "BitDepth"), ("src/common.rs", "BytesPerPixel"), ("src/common.rs", "Unit"),
+         ("src/common.rs", "DisposeOp"), ("src/common.rs", "BlendOp"), ("src/common.rs", "SrgbRenderingIntent"), ("src/filter.rs", "RowFilter")]
 
 # name in Lean, file, impl type (or None), fn name, extra
 KERNELS = [
@@ -55,6 +113,62 @@ KERNELS = [
                                                                      "self": {"width": "u32", "height": "u32"}}),
     dict(group="Zlib", lean="ZlibStream_decoding_size", file="src/decoder/zlib.rs", impl="ZlibStream", fn="decoding_size",
          fields={"self": {"max_total_output": "usize"}}, consts={"CHUNK_BUFFER_SIZE": "usize"}),
+    # ---- group Enums: byte -> enum decoders (common.rs, filter.rs) and the chunk-type bit predicates (chunk.rs)
+    dict(group="Enums", lean="ColorType_from_u8", file="src/common.rs", impl="ColorType", fn="from_u8"),
+    dict(group="Enums", lean="BitDepth_from_u8", file="src/common.rs", impl="BitDepth", fn="from_u8"),
+    dict(group="Enums", lean="Unit_from_u8", file="src/common.rs", impl="Unit", fn="from_u8"),
+    dict(group="Enums", lean="DisposeOp_from_u8", file="src/common.rs", impl="DisposeOp", fn="from_u8"),
+    dict(group="Enums", lean="BlendOp_from_u8", file="src/common.rs", impl="BlendOp", fn="from_u8"),
+    dict(group="Enums", lean="SrgbRenderingIntent_from_raw", file="src/common.rs", impl="SrgbRenderingIntent", fn="from_raw"),
+    dict(group="Enums", lean="SrgbRenderingIntent_into_raw", file="src/common.rs", impl="SrgbRenderingIntent", fn="into_raw"),
+    dict(group="Enums", lean="RowFilter_from_u8", file="src/filter.rs", impl="RowFilter", fn="from_u8"),
+    dict(group="Enums", lean="is_critical", file="src/chunk.rs", impl=None, fn="is_critical"),
+    dict(group="Enums", lean="is_private", file="src/chunk.rs", impl=None, fn="is_private"),
+    dict(group="Enums", lean="reserved_set", file="src/chunk.rs", impl=None, fn="reserved_set"),
+    dict(group="Enums", lean="safe_to_copy", file="src/chunk.rs", impl=None, fn="safe_to_copy"),
+    # ---- group ReaderGeom: output geometry of `Reader` under a transformation, and the byte ledger of `Limits`
+    # (`fixed`: every declared flag / field is a parameter, in the order of the declaration here, whether the body uses it or not)
+    dict(group="ReaderGeom", lean="Info_size", file="src/common.rs", impl="Info<'_>", fn="size", fixed=True,
+         fields={"self": {"width": "u32", "height": "u32"}}),
+    dict(group="ReaderGeom", lean="Reader_output_color_type", file="src/decoder/mod.rs", impl="Reader", fn="output_color_type", fixed=True,
+         **READER_STATE),
+    dict(group="ReaderGeom", lean="Reader_output_line_size", file="src/decoder/mod.rs", impl="Reader", fn="output_line_size", fixed=True,
+         **READER_STATE),
+    dict(group="ReaderGeom", lean="Reader_output_buffer_size", file="src/decoder/mod.rs", impl="Reader", fn="output_buffer_size", fixed=True,
+         **READER_STATE_SIZE),
+    dict(group="ReaderGeom", lean="Reader_output_line_size_for_interlace_info", file="src/decoder/mod.rs", impl="Reader",
+         fn="output_line_size_for_interlace_info", fixed=True,
+         payload={"interlace": ("InterlaceInfo", "src/decoder/interlace_info.rs",
+                                {"Adam7": ("Adam7Info", "src/adam7.rs", {"width": "u32"}), "Null": ("NullInfo", None, {})})},
+         fields={"self.subframe": {"width": "u32"}, "info": {"color_type": "ColorType", "bit_depth": "BitDepth"}},
+         **{k_: v_ for k_, v_ in READER_STATE.items() if k_ != "fields"}),
+    dict(group="ReaderGeom", lean="Limits_reserve_bytes", file="src/decoder/mod.rs", impl="Limits", fn="reserve_bytes", fixed=True,
+         errors=["LimitsExceeded"], fields={"self": {"bytes": "usize"}}, outputs=["self.bytes"]),
+    # ---- group EncoderSetters: the frame-rectangle setters of `Writer` / `StreamWriter` and the sequence checks (encoder.rs)
+    dict(group="EncoderSetters", lean="Writer_set_frame_dimension", file="src/encoder.rs", impl="Writer", fn="set_frame_dimension", fixed=True,
+         errors=SETTER_ERRORS, fields={"self.info": {"width": "u32", "height": "u32"}}, opts={"self.info.frame_control": FCTL_RECT},
+         outputs=["self.info.frame_control.%s" % f_ for f_ in FCTL_RECT]),
+    dict(group="EncoderSetters", lean="Writer_set_frame_position", file="src/encoder.rs", impl="Writer", fn="set_frame_position", fixed=True,
+         errors=SETTER_ERRORS, fields={"self.info": {"width": "u32", "height": "u32"}}, opts={"self.info.frame_control": FCTL_RECT},
+         outputs=["self.info.frame_control.%s" % f_ for f_ in FCTL_RECT]),
+    dict(group="EncoderSetters", lean="StreamWriter_set_frame_dimension", file="src/encoder.rs", impl="StreamWriter", fn="set_frame_dimension", fixed=True,
+         errors=SETTER_ERRORS, fields={"self": {"width": "u32", "height": "u32"}}, opts={"self.fctl": FCTL_RECT},
+         outputs=["self.fctl.%s" % f_ for f_ in FCTL_RECT]),
+    dict(group="EncoderSetters", lean="StreamWriter_set_frame_position", file="src/encoder.rs", impl="StreamWriter", fn="set_frame_position", fixed=True,
+         errors=SETTER_ERRORS, fields={"self": {"width": "u32", "height": "u32"}}, opts={"self.fctl": FCTL_RECT},
+         outputs=["self.fctl.%s" % f_ for f_ in FCTL_RECT]),
+    dict(group="EncoderSetters", lean="Writer_validate_new_image", file="src/encoder.rs", impl="Writer", fn="validate_new_image", fixed=True,
+         errors=["EndReached"], fields={"self.options": {"validate_sequence": "bool"}, "self": {"images_written": "u64"}},
+         opts={"self.info.animation_control": {}, "self.info.frame_control": {}}),
+    dict(group="EncoderSetters", lean="Writer_validate_first_image_rect", file="src/encoder.rs", impl="Writer", fn="validate_first_image_rect", fixed=True,
+         errors=["OutOfBounds"], fields={"self": {"images_written": "u64"}, "self.info": {"width": "u32", "height": "u32"}},
+         opts={"self.info.frame_control": FCTL_RECT}),
+    dict(group="EncoderSetters", lean="Encoder_set_animated", file="src/encoder.rs", impl="Encoder", fn="set_animated", fixed=True,
+         errors=["ZeroFrames"], fields={"self.info": {"width": "u32", "height": "u32"}},
+         opts={"self.info.animation_control": {"num_frames": "u32", "num_plays": "u32"}, "self.info.frame_control": FCTL_ALL},
+         structs={"AnimationControl": "src/common.rs", "FrameControl": "src/common.rs"},
+         outputs=["self.info.animation_control?", "self.info.animation_control.num_frames", "self.info.animation_control.num_plays",
+                  "self.info.frame_control?"] + ["self.info.frame_control.%s" % f_ for f_ in FCTL_ALL]),
 ]
 
 INT_TYPES = {
@@ -99,11 +213,79 @@ def enum_table(src, name):
     return tab or None
 
 
+def bitflags_table(src, name):
+    """the named constants of `bitflags! { pub struct <name>: uN { const A = 0x..; .. } }` in declaration order"""
+    m = re.search(r"bitflags!\s*\{", src)
+    if not m:
+        raise Unsupported("no bitflags! block")
+    block = src[m.end() - 1:match_brace(src, m.end() - 1)]
+    m2 = re.search(r"struct\s+%s\s*:\s*u(?:8|16|32|64)\s*\{" % re.escape(name), block)
+    if not m2:
+        raise Unsupported("bitflags type %s not found" % name)
+    body = block[m2.end() - 1:match_brace(block, m2.end() - 1)]
+    tab = []
+    for c, v in re.findall(r"\bconst\s+(\w+)\s*=\s*(0x[0-9a-fA-F_]+|\d[\d_]*)\s*;", body):
+        tab.append((c, int(v.replace("_", ""), 0)))
+    if len(tab) != len(re.findall(r"\bconst\b", body)) or not tab:
+        raise Unsupported("bitflags constant of %s that is not a plain number" % name)
+    return tab
+
+
+def struct_fields(src, name):
+    """{field: type text} of `struct <name> { .. }`, in declaration order"""
+    m = re.search(r"\bstruct\s+%s\s*(?:<[^>]*>)?\s*\{" % re.escape(name), src)
+    if not m:
+        raise Unsupported("struct %s not found" % name)
+    body = src[m.end():match_brace(src, m.end() - 1) - 1]
+    body = re.sub(r"#\[[^\]]*\]", " ", body)
+    out = {}
+    for part in body.split(","):
+        part = part.strip()
+        if not part:
+            continue
+        mm = re.match(r"(?:pub(?:\([^)]*\))?\s+)?(\w+)\s*:\s*(.+)$", part, re.S)
+        if not mm:
+            raise Unsupported("field of struct %s: %r" % (name, part))
+        out[mm.group(1)] = " ".join(mm.group(2).split())
+    return out
+
+
+def newtype_array(src, name):
+    """(element type, length) of `struct <name>(pub [T; N]);`"""
+    m = re.search(r"\bstruct\s+%s\s*\(\s*(?:pub(?:\([^)]*\))?\s+)?\[\s*(\w+)\s*;\s*(\d+)\s*\]\s*\)\s*;" % re.escape(name), src)
+    if not m:
+        return None
+    return m.group(1), int(m.group(2))
+
+
+def payload_enum(src, name):
+    """[(variant, payload type)] of `enum <name> { V1(T1), V2(T2), .. }` (every variant with exactly one unnamed field)"""
+    m = re.search(r"\benum\s+%s\s*\{" % re.escape(name), src)
+    if not m:
+        raise Unsupported("enum %s not found" % name)
+    body = src[m.end():match_brace(src, m.end() - 1) - 1]
+    body = re.sub(r"#\[[^\]]*\]", " ", body)
+    out = []
+    for part in body.split(","):
+        part = part.strip()
+        if not part:
+            continue
+        mm = re.match(r"(\w+)\s*\(\s*(\w+)\s*\)$", part)
+        if not mm:
+            raise Unsupported("variant of enum %s: %r" % (name, part))
+        out.append((mm.group(1), mm.group(2)))
+    return out
+
+
 def find_fn(src, impl, fn):
-    """(params text, return type text, body text incl. braces) of fn `fn` (inside `impl <impl>` if given)"""
+    """(params text, return type text, body text incl. braces) of fn `fn` (inside `impl <impl>` if given; an `impl` name
+    without `<` also matches `impl<..> Name<..> {`, but never a trait impl `impl<..> Trait for Name`)"""
     regions = []
     if impl:
-        for m in re.finditer(r"impl(?:<[^>]*>)?\s+%s\s*\{" % re.escape(impl), src):
+        pat = r"impl(?:<[^>]*>)?\s+%s\s*\{" % re.escape(impl)
+        if "<" not in impl:
+            pat = r"impl(?:<[^>]*>)?\s+%s(?:<[^>{]*>)?\s*\{" % re.escape(impl)
+        for m in re.finditer(pat, src):
             regions.append((m.end() - 1, match_brace(src, m.end() - 1)))
         if not regions:
             raise Unsupported("impl %s not found" % impl)
@@ -139,7 +321,7 @@ def find_fn(src, impl, fn):
 
 # --------------------------------------------------------------------------------------------- lexer / parser
 
-TOKEN = re.compile(r"\s*(?:(\"(?:[^\"\\]|\\.)*\")|(\d[\d_]*(?:\.\d+)?(?:[iu](?:8|16|32|64|size))?)|([A-Za-z_][A-Za-z0-9_]*)|(::|->|=>|==|!=|<=|>=|&&|\|\||<<|>>|\+=|-=|\*=|/=|[-+*/%<>=!&|^(){}\[\],;:.?'#]))")
+TOKEN = re.compile(r"\s*(?:(\"(?:[^\"\\]|\\.)*\")|(0x[0-9a-fA-F_]+(?:[iu](?:8|16|32|64|size))?|0b[01_]+(?:[iu](?:8|16|32|64|size))?|\d[\d_]*(?:\.\d+)?(?:[iu](?:8|16|32|64|size))?)|([A-Za-z_][A-Za-z0-9_]*)|(::|->|=>|==|!=|<=|>=|&&|\|\||<<|>>|\+=|-=|\*=|/=|[-+*/%<>=!&|^(){}\[\],;:.?'#]))")
 
 
 def lex(text):
@@ -166,6 +348,23 @@ class Parser:
     def __init__(self, toks):
         self.t = toks
         self.i = 0
+        self.nostruct = 0           # > 0 while parsing an `if` condition / `match` scrutinee (no struct literal there)
+
+    def cond_expr(self):
+        """an expression in a position where Rust does not allow a struct literal (`if` condition, `match` scrutinee)"""
+        self.nostruct += 1
+        try:
+            return self.expr()
+        finally:
+            self.nostruct -= 1
+
+    def inner(self, f):
+        """parse with struct literals allowed again (inside parentheses / braces / brackets)"""
+        saved, self.nostruct = self.nostruct, 0
+        try:
+            return f()
+        finally:
+            self.nostruct = saved
 
     def peek(self, k=0):
         return self.t[self.i + k] if self.i + k < len(self.t) else ("eof", "")
@@ -182,6 +381,9 @@ class Parser:
 
     # ---- statements
     def block(self):
+        return self.inner(self.block_)
+
+    def block_(self):
         self.eat("{")
         stmts = []
         while not self.at("}"):
@@ -242,7 +444,7 @@ class Parser:
                 e = self.expr() if not self.at(";") else ("unit",)
                 if self.at(";"):
                     self.eat()
-                stmts.append(("return", e))
+                stmts.append(("return", e, "explicit"))
                 continue
             if self.at("debug_assert"):
                 # debug_assert!(..): not part of the value; skipped (its condition is not an obligation here)
@@ -302,8 +504,20 @@ class Parser:
                 return "result"
             raise Unsupported("generic type %s" % name)
         if name == "(":
+            if self.at(")"):
+                self.eat(")")
+                return "unit"
+            items = [self.type_()]
+            while self.at(","):
+                self.eat()
+                if self.at(")"):
+                    break
+                items.append(self.type_())
             self.eat(")")
-            return "unit"
+            return ("tup", items) if len(items) > 1 else items[0]
+        while self.at("::"):           # a path `a::b::T`: the last segment names the type
+            self.eat()
+            name = self.eat()[1]
         return name
 
     # ---- expressions (precedence climbing)
@@ -334,11 +548,16 @@ class Parser:
             self.eat()
             return ("not", self.unary())
         if self.at("*") or self.at("&"):
-            self.eat()  # deref / borrow of a scalar: transparent
+            amp = self.eat()[1] == "&"  # deref / borrow of a scalar: transparent
+            if amp and self.at("mut"):
+                self.eat()
             return self.unary()
         return self.postfix()
 
     def args(self):
+        return self.inner(self.args_)
+
+    def args_(self):
         self.eat("(")
         a = []
         while not self.at(")"):
@@ -362,6 +581,11 @@ class Parser:
                     e = ("field", e, name)
             elif self.at("?"):
                 raise Unsupported("? operator")
+            elif self.at("["):
+                self.eat()
+                idx = self.inner(self.expr)
+                self.eat("]")
+                e = ("index", e, idx)
             else:
                 return e
 
@@ -369,6 +593,9 @@ class Parser:
         k, v = self.peek()
         if k == "num":
             self.eat()
+            mh = re.match(r"(0x[0-9a-fA-F_]+?|0b[01_]+?)([iu](?:8|16|32|64|size))?$", v)
+            if mh:
+                return ("lit", int(mh.group(1).replace("_", ""), 0), mh.group(2))
             m = re.match(r"([\d_]+)(?:\.(\d+))?([iu](?:8|16|32|64|size))?$", v)
             if m.group(2) is not None:
                 if int(m.group(2)) != 0:
@@ -376,6 +603,10 @@ class Parser:
                 return ("flit", int(m.group(1).replace("_", "")))
             return ("lit", int(m.group(1).replace("_", "")), m.group(3))
         if v == "(":
+            return self.inner(self.paren)
+        return self.primary_()
+
+    def paren(self):
             self.eat()
             if self.at(")"):
                 self.eat()
@@ -397,34 +628,47 @@ class Parser:
                 return ("tuple", items)
             self.eat(")")
             return e
+
+    def primary_(self):
+        k, v = self.peek()
         if v == "if":
             self.eat()
-            c = self.expr()
+            bindpat = None
+            if self.at("let"):
+                # `if let PAT = e { A } else { B }`  ==  if (e matches PAT) { bind PAT; A } else { B }
+                self.eat()
+                pat = self.pattern()
+                self.eat("=")
+                if self.at("&") and self.at("mut", 1) and pat[0] == "pctor":
+                    pat = pat[:3] + (True,)         # `= &mut x`: the bindings of the pattern are mutable references into x
+                scrut = self.cond_expr()
+                c = ("islet", pat, scrut)
+                bindpat = ("bindpat", pat, scrut)
+            else:
+                c = self.cond_expr()
             a = self.block()
+            if bindpat:
+                a = [bindpat] + a
             b = None
             if self.at("else"):
                 self.eat()
-                b = [("return", self.primary())] if self.at("if") else self.block()
+                # the marker "elseif": this `return` stands for the nested `if` of an `else if` chain, not for a tail expression
+                b = [("return", self.primary(), "elseif")] if self.at("if") else self.block()
             return ("if", c, a, b)
         if v == "match":
             self.eat()
-            scrut = self.expr()
-            self.eat("{")
-            arms = []
-            while not self.at("}"):
-                pats = [self.pattern()]
-                while self.at("|"):
-                    self.eat()
-                    pats.append(self.pattern())
-                self.eat("=>")
-                body = self.block() if self.at("{") else [("return", self.expr())]
-                if self.at(","):
-                    self.eat()
-                arms.append((pats, body))
-            self.eat("}")
-            return ("match", scrut, arms)
+            mutborrow = self.at("&") and self.at("mut", 1)
+            scrut = self.cond_expr()
+            m = self.inner(lambda: self.match_arms(scrut))
+            if mutborrow:
+                m = ("match", m[1], [([(p[:3] + (True,)) if p[0] == "pctor" else p for p in pats], body, guard) for pats, body, guard in m[2]])
+            return m
         if v == "{":
             return ("block", self.block())
+        if v == "Default" and self.at("::", 1) and self.at("default", 2) and self.at("(", 3) and self.at(")", 4):
+            for _ in range(5):
+                self.eat()
+            return ("default",)
         if v == "move" or v == "|":
             if v == "move":
                 self.eat()
@@ -461,15 +705,60 @@ class Parser:
             if self.at("{") and path[-1][:1].isupper() and len(path) > 1 and self.at("}", 1):
                 self.eat(); self.eat()  # `Variant {}`
                 return ("path", path)
+            if self.at("{") and path[-1][:1].isupper() and not self.nostruct:
+                return self.inner(lambda: self.struct_lit(path))
             if len(path) == 1:
                 return ("var", path[0])
             return ("path", path)
         raise Unsupported("unexpected token %r" % v)
 
+    def match_arms(self, scrut):
+            self.eat("{")
+            arms = []
+            while not self.at("}"):
+                pats = [self.pattern()]
+                while self.at("|"):
+                    self.eat()
+                    pats.append(self.pattern())
+                guard = None
+                if self.at("if"):
+                    self.eat()
+                    guard = self.expr()
+                self.eat("=>")
+                body = self.block() if self.at("{") else [("return", self.expr())]
+                if self.at(","):
+                    self.eat()
+                arms.append((pats, body, guard))
+            self.eat("}")
+            return ("match", scrut, arms)
+
+    def struct_lit(self, path):
+        """`Name { f: e, g, ..base }`"""
+        self.eat("{")
+        items, base = [], None
+        while not self.at("}"):
+            if self.at(".") and self.at(".", 1):
+                self.eat(); self.eat()
+                base = self.expr()
+                break
+            f = self.eat()[1]
+            if self.at(":"):
+                self.eat()
+                items.append((f, self.expr()))
+            else:
+                items.append((f, ("var", f)))
+            if self.at(","):
+                self.eat()
+        self.eat("}")
+        return ("structlit", path[-1], items, base)
+
     def pattern(self):
         k, v = self.peek()
         if k == "num":
             self.eat()
+            mh = re.match(r"(0x[0-9a-fA-F_]+?|0b[01_]+?)([iu](?:8|16|32|64|size))?$", v)
+            if mh:
+                return ("plit", int(mh.group(1).replace("_", ""), 0))
             return ("plit", int(re.match(r"[\d_]+", v).group(0).replace("_", "")))
         if v == "_":
             self.eat()
@@ -480,17 +769,81 @@ class Parser:
             path.append(self.eat()[1])
         if len(path) == 1 and path[0][:1].islower():
             return ("pbind", path[0])
+        if self.at("("):
+            # `Some(x)` / `Some(ref mut x)` / `Some(_)`;  `Enum::Variant(_)` / `Enum::Variant(x)` / `Enum::Variant(Struct { f, g: h, .. })`
+            self.eat()
+            byref = False
+            if self.at("ref"):
+                self.eat()
+                byref = True
+            if self.at("mut"):
+                self.eat()
+            sub = None
+            if self.at("_"):
+                self.eat()
+            else:
+                name = [self.eat()[1]]
+                while self.at("::"):
+                    self.eat()
+                    name.append(self.eat()[1])
+                if self.at("{"):
+                    self.eat()
+                    binds = []
+                    while not self.at("}"):
+                        if self.at(".") and self.at(".", 1):
+                            self.eat(); self.eat()
+                            break
+                        if self.at("ref"):
+                            self.eat()
+                        if self.at("mut"):
+                            self.eat()
+                        f = self.eat()[1]
+                        b = f
+                        if self.at(":"):
+                            self.eat()
+                            b = self.eat()[1]
+                        binds.append((f, b))
+                        if self.at(","):
+                            self.eat()
+                    self.eat("}")
+                    sub = ("fields", name[-1], binds)
+                elif len(name) == 1 and name[0][:1].islower():
+                    sub = ("name", name[0])
+                else:
+                    raise Unsupported("pattern inside %s(..)" % path[-1])
+            self.eat(")")
+            return ("pctor", path[-1], sub, byref)
         return ("pvariant", path[-1])
 
 
 # --------------------------------------------------------------------------------------------- translation
 
+def is_opt(t):
+    return isinstance(t, tuple) and len(t) == 2 and t[0] == "opt"
+
+
+def is_tup(t):
+    return isinstance(t, tuple) and len(t) == 2 and t[0] == "tup"
+
+
+def is_ref(t):
+    return isinstance(t, tuple) and len(t) == 3 and t[0] == "ref"
+
+
 class Tr:
-    def __init__(self, kernel, enums, sigs):
+    def __init__(self, kernel, enums, sigs, load=None):
         self.k = kernel
         self.enums = enums          # enum name -> {variant: discriminant}
-        self.sigs = sigs            # lean name -> (impl, fn, param names, param types, ret type)
+        self.sigs = sigs            # lean name -> (impl, fn, param names, param types, ret type, extra)
+        self.load = load            # file name -> comment-free source text
         self.params = []            # (lean name, type)
+        self.origin = {}            # lean parameter name -> where it comes from: ("field", path, f) / ("some", path) / ("flag", path, F) / ..
+        self.used_groups = set()    # groups of the translated functions this kernel calls
+        self.flagtab = {}           # bitflags type -> [(constant, value)] in declaration order
+        self.payload = {}           # parameter -> (variants in declaration order, {variant: (struct, {field: type})})
+        self.valdepth = 0           # > 0 while translating something whose value is USED by the function (operand, condition, `let`
+                                    # right-hand side, argument); 0 = tail position: the value of a block there is the function's result
+        self.in_local = False       # inside the body of an inlined local fn / closure
         self.env = {}               # rust var -> type
         self.self_ty = None
         self.ret = None
@@ -520,17 +873,102 @@ class Tr:
             return "(%s %% %d)" % (x, n)
         return "((%s + %d) %% %d - %d)" % (x, -lo, n, -lo)
 
+    def pname(self, path, f):
+        return "%s_%s" % (path.replace(".", "_"), f)
+
+    def add_param(self, name, ty, origin):
+        if name not in [p[0] for p in self.params]:
+            self.params.append((name, ty))
+            self.origin[name] = origin
+
     def free_field(self, obj, f):
-        """struct field `obj.f` -> parameter obj_f"""
-        fields = self.k.get("fields", {})
-        if obj in fields and f in fields[obj]:
-            name = "%s_%s" % (obj, f)
-            if name in self.env:
-                return name, self.env[name]
-            if name not in [p[0] for p in self.params]:
-                self.params.append((name, fields[obj][f]))
-            return name, fields[obj][f]
+        """struct field `obj.f` -> parameter obj_f (`obj` may be a dotted path `self.info`: parameter self_info_f); a field of
+        an `Option<struct>` path declared under `opts` likewise (it is only reachable through a `Some(..)` pattern)"""
+        for tab in (self.k.get("fields", {}), self.k.get("opts", {})):
+            if obj in tab and f in tab[obj]:
+                name = self.pname(obj, f)
+                if name in self.env:
+                    return name, self.env[name]
+                self.add_param(name, tab[obj][f], ("field", obj, f))
+                return name, tab[obj][f]
         raise Unsupported("field %s.%s is not declared for this kernel" % (obj, f))
+
+    def path_kind(self, path):
+        if path in self.k.get("opts", {}):
+            return "opt"
+        if path in self.k.get("flags", {}):
+            return "flags"
+        if path in self.k.get("fields", {}) or path == "self" or path in [v[0] for v in self.k.get("structcalls", {}).values()]:
+            return "struct"
+        return None
+
+    def resolve_path(self, x):
+        """the dotted path of a place expression (`self`, a struct parameter, an alias introduced by `let` / a `Some(..)` pattern,
+        a field of a path, a call declared under `structcalls`), or None"""
+        if x[0] == "var":
+            if x[1] == "self":
+                return "self" if self.self_ty is None else None
+            t = self.env.get(x[1])
+            if isinstance(t, tuple) and t[0] == "alias":
+                return t[1]
+            if x[1] not in self.env and (x[1] in self.k.get("fields", {}) or x[1] in self.k.get("opts", {})):
+                return x[1]
+            return None
+        if x[0] == "field":
+            p = self.resolve_path(x[1])
+            return p + "." + x[2] if p else None
+        if x[0] == "method" and not x[3]:
+            p = self.resolve_path(x[1])
+            sc = self.k.get("structcalls", {})
+            if p and "%s.%s()" % (p, x[2]) in sc:
+                return sc["%s.%s()" % (p, x[2])][0]
+        return None
+
+    def some_param(self, path):
+        """the Bool parameter `<path>_is_some` of an `Option<..>` path (its current value, if it was assigned)"""
+        if path not in self.k.get("opts", {}):
+            raise Unsupported("%s is not declared as an Option field of this kernel" % path)
+        name = self.pname(path, "is_some")
+        if name not in self.env:
+            self.add_param(name, "bool", ("some", path))
+        return name
+
+    def flag_table(self, ty):
+        if ty not in self.flagtab:
+            files = [v[1] for v in self.k.get("flags", {}).values() if v[0] == ty]
+            if not files:
+                raise Unsupported("bitflags type %s is not declared for this kernel" % ty)
+            tab = bitflags_table(self.load(files[0]), ty)
+            bits = [v for _, v in tab if v != 0]
+            if any(v & (v - 1) for v in bits) or len(set(bits)) != len(bits):
+                raise Unsupported("bitflags type %s has a constant that is not a single bit of its own" % ty)
+            self.flagtab[ty] = tab
+        return self.flagtab[ty]
+
+    def flag_params(self, path):
+        """[(flag name, Bool parameter)] for every single-bit flag of the bitflags type of `path`, in declaration order"""
+        ty = self.k["flags"][path][0]
+        out = []
+        for c, v in self.flag_table(ty):
+            if v != 0:
+                name = self.pname(path, c)
+                self.add_param(name, "bool", ("flag", path, c))
+                out.append((c, name))
+        return out
+
+    def declare_fixed(self):
+        """`fixed` kernels: every declared flag / field / Option field is a parameter, in the order of the declaration"""
+        for path in self.k.get("flags", {}):
+            self.flag_params(path)
+        for path, fs in self.k.get("fields", {}).items():
+            for f in fs:
+                self.free_field(path, f)
+        for path, fs in self.k.get("opts", {}).items():
+            self.some_param(path)
+            for f in fs:
+                self.free_field(path, f)
+        for c, t in self.k.get("consts", {}).items():
+            self.add_param(c, t, ("const", c))
 
     # --- expressions: returns (lean term, type, ok term or None)
     def conj(self, *oks):
@@ -540,33 +978,66 @@ class Tr:
         return " && ".join("(%s)" % o for o in oks) if len(oks) > 1 else oks[0]
 
     def e(self, x, want=None):
+        if x[0] in ("if", "match", "block"):
+            return self.e_(x, want)      # their branches stay in the position the whole expression is in
+        self.valdepth += 1
+        try:
+            return self.e_(x, want)
+        finally:
+            self.valdepth -= 1
+
+    def ev(self, x, want=None):
+        """translate x as a used value (never in tail position)"""
+        self.valdepth += 1
+        try:
+            return self.e(x, want)
+        finally:
+            self.valdepth -= 1
+
+    def e_(self, x, want=None):
         k = x[0]
         if k == "lit":
             return (str(x[1]) if x[1] >= 0 else "(%d)" % x[1]), (x[2] or want or "lit"), None
         if k == "unit":
             return "()", "unit", None
+        if k == "rawlean":
+            return x[1], x[2], None
         if k == "flit":
             return ("f64", str(x[1]), 1), "f64", None
         if k == "tuple":
             vals, tys, oks = [], [], []
-            for it in x[1]:
-                v, t, o = self.e(it)
+            wants = want[1] if is_tup(want) and len(want[1]) == len(x[1]) else [None] * len(x[1])
+            for it, w in zip(x[1], wants):
+                v, t, o = self.e(it, w)
+                if not isinstance(v, str) or not (self.is_int(t) or t in self.enums or t in ("bool", "lit")):
+                    raise Unsupported("tuple component of type %s" % (t,))
+                if t == "lit" and w:
+                    t = w
                 vals.append(v); tys.append(t); oks.append(o)
-            return ("tuple", vals, tys), "tuple", self.conj(*oks)
+            return "(%s)" % ", ".join(vals), ("tup", tys), self.conj(*oks)
         if k == "var":
             n = x[1]
             if n == "self":
+                if self.self_ty is None:
+                    return ("ref", "self"), ("ref", "struct", "self"), None
                 return "self_", self.self_ty, None
             if n in self.env:
                 if self.env[n] == "f64":
                     return ("f64", self.lname(n), self.fden[n]), "f64", None
+                if isinstance(self.env[n], tuple) and self.env[n][0] == "alias":
+                    path = self.env[n][1]
+                    return ("ref", path), ("ref", self.path_kind(path), path), None
+                if isinstance(self.env[n], tuple) and self.env[n][0] in ("payload", "structlocal", "array"):
+                    raise Unsupported("%s used as a value" % n)
                 return self.lname(n), self.env[n], None
             if n in self.k.get("consts", {}):
                 if n not in [p[0] for p in self.params]:
                     self.params.append((n, self.k["consts"][n]))
                 return n, self.k["consts"][n], None
             if n == "None":
-                return "(none : Option Int)", ("opt", want[1] if isinstance(want, tuple) else "lit"), None
+                return "(none : Option Int)", ("opt", want[1] if is_opt(want) else "lit"), None
+            if n in ("true", "false"):
+                return n, "bool", None
             v = self.enum_of_variant(n, self.self_ty)
             if v:
                 return str(self.enums[v][n]), v, None
@@ -581,12 +1052,34 @@ class Tr:
                 en = self.self_ty
             if en in self.enums and p[-1] in self.enums[en]:
                 return str(self.enums[en][p[-1]]), en, None
+            if en in [v[0] for v in self.k.get("flags", {}).values()]:
+                tab = dict(self.flag_table(en))
+                if p[-1] not in tab:
+                    raise Unsupported("unknown flag %s" % "::".join(p))
+                return ("flagset", frozenset([p[-1]] if tab[p[-1]] else [])), ("flagconst", en), None
             raise Unsupported("path %s" % "::".join(p))
         if k == "field":
-            if x[1][0] == "var":
-                n, t = self.free_field(x[1][1], x[2])
-                return n, t, None
-            raise Unsupported("nested field access")
+            base = self.resolve_path(x[1])
+            if base is None:
+                raise Unsupported("nested field access")
+            if base in self.k.get("opts", {}) and not (x[1][0] == "var" and isinstance(self.env.get(x[1][1]), tuple)):
+                raise Unsupported("field of an Option read without a `Some(..)` pattern")
+            full = base + "." + x[2]
+            if self.path_kind(full) in ("opt", "flags") or (self.path_kind(full) == "struct" and not self.declared_field(base, x[2])):
+                return ("ref", full), ("ref", self.path_kind(full), full), None
+            n, t = self.free_field(base, x[2])
+            return n, t, None
+        if k == "index":
+            if x[1][0] == "var" and isinstance(self.env.get(x[1][1]), tuple) and self.env[x[1][1]][0] == "array":
+                _, ety, n = self.env[x[1][1]]
+                if x[2][0] != "lit" or not (0 <= x[2][1] < n):
+                    raise Unsupported("array index that is not a literal inside the array")
+                return "%s_%d" % (self.lname(x[1][1]), x[2][1]), ety, None
+            raise Unsupported("index expression")
+        if k == "islet":
+            return self.islet(x[1], x[2])
+        if k in ("structlit", "default"):
+            raise Unsupported("struct value in an expression position")
         if k == "neg":
             a, t, o = self.e(x[1], want)
             r = "(-%s)" % a
@@ -621,7 +1114,7 @@ class Tr:
         if k == "bin":
             return self.binop(x, want)
         if k == "if":
-            c, ct, co = self.e(x[1], "bool")
+            c, ct, co = self.ev(x[1], "bool")
             if x[3] is None:
                 raise Unsupported("if expression without else")
             a, at_, ao = self.blk(x[2], want)
@@ -643,6 +1136,55 @@ class Tr:
             return self.method(x, want)
         raise Unsupported("expression kind %s" % k)
 
+    def declared_field(self, path, f):
+        return f in self.k.get("fields", {}).get(path, {}) or f in self.k.get("opts", {}).get(path, {})
+
+    def islet(self, pat, scrut):
+        """the Bool `scrut matches pat` for the patterns that bind nothing by themselves (bindings: `bindpat`)"""
+        if scrut[0] == "var" and isinstance(self.env.get(scrut[1]), tuple) and self.env[scrut[1]][0] == "payload":
+            c = self.payload_cond(scrut[1], pat)
+            if c is None:
+                raise Unsupported("irrefutable `if let`")
+            return "decide (%s)" % c, "bool", None
+        path = self.resolve_path(scrut)
+        if path is None or self.path_kind(path) != "opt":
+            raise Unsupported("`if let` on something that is not a declared Option field")
+        sp = self.some_param(path)
+        if pat[0] == "pctor" and pat[1] == "Some":
+            return sp, "bool", None
+        if pat[0] == "pvariant" and pat[1] == "None":
+            return "(!%s)" % sp, "bool", None
+        raise Unsupported("pattern of `if let`")
+
+    def payload_cond(self, var, pat):
+        """condition (a Prop over the tag parameter) under which the payload-enum parameter `var` matches `pat`; None = always"""
+        variants, decl = self.payload[var]
+        if pat[0] in ("pwild", "pbind"):
+            return None
+        if pat[0] in ("pctor", "pvariant"):
+            names = [v for v, _ in variants]
+            if pat[1] not in names:
+                raise Unsupported("unknown variant %s" % pat[1])
+            return "%s_tag = %d" % (self.lname(var), names.index(pat[1]))
+        raise Unsupported("pattern on a payload enum")
+
+    def payload_binds(self, var, pat):
+        """[(rust name, lean parameter, type)] bound by `pat` on the payload-enum parameter `var`"""
+        if pat[0] != "pctor" or pat[2] is None:
+            return []
+        variants, decl = self.payload[var]
+        if pat[2][0] != "fields":
+            raise Unsupported("binding the whole payload of %s" % pat[1])
+        sname, fields = decl.get(pat[1], (None, {}))
+        if pat[2][1] != sname:
+            raise Unsupported("payload struct %s of variant %s" % (pat[2][1], pat[1]))
+        out = []
+        for f, b in pat[2][2]:
+            if f not in fields:
+                raise Unsupported("field %s of %s is not declared for this kernel" % (f, sname))
+            out.append((b, "%s_%s_%s" % (self.lname(var), pat[1], f), fields[f]))
+        return out
+
     def lname(self, n):
         if n.endswith("__idx"):
             return n[:-5]
@@ -660,8 +1202,20 @@ class Tr:
             return "(%s %s %s)" % (a, op, b), "bool", ok
         if self.is_f64(x[2]) or self.is_f64(x[3]):
             return self.fbin(x)
+        if op in ("==", "!=") and x[2][0] == "tuple" and x[3][0] == "tuple":
+            # tuples are equal iff all components are
+            if len(x[2][1]) != len(x[3][1]):
+                raise Unsupported("comparison of tuples of different length")
+            cs, oks = [], []
+            for l, r in zip(x[2][1], x[3][1]):
+                c, _, o = self.binop(("bin", "==", l, r), "bool")
+                cs.append(c); oks.append(o)
+            v = "(%s)" % " && ".join(cs)
+            return (v if op == "==" else "(!%s)" % v), "bool", self.conj(*oks)
         # operand types: a literal takes the type of the other side
         a, ta, ao = self.e(x[2], None)
+        if is_ref(ta) or (isinstance(ta, tuple) and ta[0] == "flagconst"):
+            return self.flagop(op, a, ta, x[3])
         b, tb, bo = self.e(x[3], ta if ta != "lit" else None)
         if ta == "lit" and tb != "lit":
             a, ta, ao = self.e(x[2], tb)
@@ -669,7 +1223,9 @@ class Tr:
             ta = tb = want
         t = ta if ta != "lit" else tb
         if op in ("==", "!=", "<", ">", "<=", ">="):
-            if isinstance(t, tuple):  # Option ordering
+            if is_tup(t):
+                raise Unsupported("ordering / equality of tuple values")
+            if is_opt(t):  # Option ordering
                 f = {"<=": "optLe %s %s", "<": "optLt %s %s", ">=": "optLe %s %s", ">": "optLt %s %s", "==": "(%s == %s)", "!=": "(%s != %s)"}[op]
                 args = (b, a) if op in (">=", ">") else (a, b)
                 return "(" + f % args + ")", "bool", self.conj(ao, bo)
@@ -695,7 +1251,54 @@ class Tr:
                 return "(%s / %d)" % (a, n), t, ao
             r = "(%s * %d)" % (a, n)
             return r, t, self.conj(ao, self.rng(t, r) if self.is_int(t) else None)
+        if op == "&":
+            # bit-and of an unsigned value with a non-negative literal mask: the sum of the mask's bits that are set in the value
+            # (`x & 32` = `x / 32 % 2 * 32`); anything else is outside the subset
+            lit, other, ot, oo = None, None, None, None
+            if x[3][0] == "lit":
+                lit, other, ot, oo = x[3][1], a, ta, ao
+            elif x[2][0] == "lit":
+                lit, other, ot, oo = x[2][1], b, tb, bo
+            if lit is None or lit < 0 or not self.is_int(ot) or INT_TYPES[ot][0] < 0 or lit > INT_TYPES[ot][1]:
+                raise Unsupported("`&` that is not <unsigned value> & <literal>")
+            terms = ["(%s / %d %% 2 * %d)" % (other, 2 ** i, 2 ** i) for i in range(lit.bit_length()) if lit >> i & 1]
+            return ("(%s)" % " + ".join(terms) if len(terms) != 1 else terms[0]) if terms else "0", ot, oo
         raise Unsupported("operator %s" % op)
+
+    def flagset(self, x, ty=None):
+        """a constant set of flags: `T::A`, `T::A | T::B`, `T::empty()`, `T::all()`"""
+        if x[0] == "bin" and x[1] == "|":
+            a, ta = self.flagset(x[2], ty)
+            b, tb = self.flagset(x[3], ta)
+            if ta != tb:
+                raise Unsupported("union of flags of different types")
+            return a | b, ta
+        if x[0] == "call" and len(x[1]) == 2 and x[1][1] in ("empty", "all") and not x[2] and x[1][0] in [v[0] for v in self.k.get("flags", {}).values()]:
+            tab = self.flag_table(x[1][0])
+            return frozenset(c for c, v in tab if v != 0 and x[1][1] == "all"), x[1][0]
+        v, t, _ = self.e(x)
+        if not (isinstance(t, tuple) and t[0] == "flagconst"):
+            raise Unsupported("expected a constant set of flags")
+        return v[1], t[1]
+
+    def flagop(self, op, a, ta, rhs):
+        """`t == T::X`, `t != T::X` for a bitflags value `t` (a declared path: one Bool per single-bit flag) and a constant set"""
+        if op not in ("==", "!="):
+            raise Unsupported("operator %s on a struct / bitflags value" % op)
+        if is_ref(ta) and ta[1] == "flags":
+            fs, fty = self.flagset(rhs)
+            path = ta[2]
+        elif isinstance(ta, tuple) and ta[0] == "flagconst":
+            b, tb, _ = self.e(rhs)
+            if not (is_ref(tb) and tb[1] == "flags"):
+                raise Unsupported("comparison of two flag constants")
+            fs, fty, path = a[1], ta[1], tb[2]
+        else:
+            raise Unsupported("comparison of struct values")
+        if self.k["flags"][path][0] != fty:
+            raise Unsupported("comparison of flags of different types")
+        v = "(%s)" % " && ".join((n if c in fs else "(!%s)" % n) for c, n in self.flag_params(path))
+        return (v if op == "==" else "(!%s)" % v), "bool", None
 
     # --- f64: every value is numerator / denominator with the denominator a power of two known at translation time;
     # all operations used (from u32, +, -, * and / by small powers of two, ceil, floor) are exact in IEEE-754 binary64 as
@@ -762,7 +1365,12 @@ class Tr:
             # the parameters shadow and Rust has already checked scoping
             for (pn, _), t in zip(params, tys):
                 self.env[pn] = t
-            bv, bt, bo = self.e(body, ret)
+            vd, il = self.valdepth, self.in_local
+            self.valdepth, self.in_local = 0, True      # `return` in the body of a local fn returns from that fn
+            try:
+                bv, bt, bo = self.e(body, ret)
+            finally:
+                self.valdepth, self.in_local = vd, il
             self.env, self.fden = saved, fd
             if ret and ret != "lit" and bt != "f64":
                 bt = ret
@@ -784,7 +1392,9 @@ class Tr:
                 return "(if %s then 1 else 0)" % a, p[0], o
             return a, p[0], o  # From is only implemented for value-preserving conversions
         if p == ["Some"]:
-            a, t, o = self.e(args[0], want[1] if isinstance(want, tuple) else None)
+            a, t, o = self.e(args[0], want[1] if is_opt(want) else None)
+            if not isinstance(a, str):
+                raise Unsupported("Some(..) of a value that is not a scalar")
             return "(some %s)" % a, ("opt", t), o
         if p == ["Ok"]:
             return "0", "result", None
@@ -797,12 +1407,97 @@ class Tr:
         if p[-1] == "try_from" and len(args) == 1:
             a, t, o = self.e(args[0])
             return ("tryfrom", a, t), "tryfrom", o
+        if len(p) == 2:
+            # an associated function `Type::f(args)` that was translated before (no receiver)
+            owner = self.k["impl"] if p[0] == "Self" else p[0]
+            for ln, (impl, fn, pn, pt, rt, ex) in self.sigs.items():
+                if ex["rawimpl"] == owner and fn == p[1] and all(o_[0] == "arg" for o_ in ex["origins"]) and not ex["outputs"]:
+                    if len(args) != len(pn):
+                        raise Unsupported("arity of %s" % "::".join(p))
+                    vals, oks = [], []
+                    for a_, pt_ in zip(args, pt):
+                        v, t, o = self.e(a_, pt_)
+                        if not isinstance(v, str):
+                            raise Unsupported("argument of %s" % "::".join(p))
+                        vals.append(v); oks.append(o)
+                    self.used_groups.add(ex["group"])
+                    return "(%s %s)" % (ln, " ".join(vals)), rt, self.conj(*(oks + ["%s_ok %s" % (ln, " ".join(vals))]))
         raise Unsupported("call of %s" % "::".join(p))
+
+    def call_on_path(self, path, name, args):
+        """`<path>.name(args)` for a function translated before whose receiver is a struct: its `self` is `path`, its flag /
+        field / Option parameters are the corresponding ones of this kernel (which must declare them with the same types)"""
+        sc = dict((v[0], v[1]) for v in self.k.get("structcalls", {}).values())
+        owner = self.k["impl"] if path == "self" else sc.get(path)
+        for ln, (impl, fn, pn, pt, rt, ex) in self.sigs.items():
+            if owner is None or ex["rawimpl"] != owner or fn != name or ex["outputs"]:
+                continue
+            nargs = len([o_ for o_ in ex["origins"] if o_[0] == "arg"])
+            if nargs != len(args):
+                raise Unsupported("arity of %s" % name)
+            tr = lambda q: (path + q[4:]) if (q == "self" or q.startswith("self.")) else q
+            vals, oks, ai = [], [], 0
+            for pn_, pt_, og in zip(pn, pt, ex["origins"]):
+                if og[0] == "arg":
+                    v, t, o = self.e(args[ai], pt_)
+                    ai += 1
+                    if not isinstance(v, str):
+                        raise Unsupported("argument of %s" % name)
+                    oks.append(o)
+                elif og[0] == "field":
+                    v, t = self.free_field(tr(og[1]), og[2])
+                    if t != pt_:
+                        raise Unsupported("field %s.%s has type %s here and %s in %s" % (tr(og[1]), og[2], t, pt_, ln))
+                elif og[0] == "some":
+                    v = self.some_param(tr(og[1]))
+                elif og[0] == "flag":
+                    q = tr(og[1])
+                    if q not in self.k.get("flags", {}) or self.k["flags"][q][0] != ex["flagtypes"][og[1]]:
+                        raise Unsupported("%s needs the flags %s" % (ln, q))
+                    v = dict(self.flag_params(q))[og[2]]
+                else:
+                    raise Unsupported("%s has a parameter (%s) that cannot be passed on" % (ln, pn_))
+                vals.append(v)
+            self.used_groups.add(ex["group"])
+            return "(%s %s)" % (ln, " ".join(vals)), rt, self.conj(*(oks + ["%s_ok %s" % (ln, " ".join(vals))]))
+        raise Unsupported("method %s on %s" % (name, path))
 
     def method(self, x, want):
         recv, name, args = x[1], x[2], x[3]
-        # calls of other translated functions on an enum receiver
-        r, t, ro = self.e(recv)
+        whole = self.resolve_path(x)
+        if whole is not None and self.path_kind(whole) is not None:
+            return ("ref", whole), ("ref", self.path_kind(whole), whole), None     # a call declared under `structcalls`
+        rp = self.resolve_path(recv)
+        if rp is not None and self.path_kind(rp) is not None and not self.is_declared_scalar(recv):
+            r, t, ro = ("ref", rp), ("ref", self.path_kind(rp), rp), None
+        else:
+            r, t, ro = self.e(recv)
+        if is_ref(t):
+            kind, path = t[1], t[2]
+            if kind == "opt" and not args and name in ("is_some", "is_none"):
+                sp = self.some_param(path)
+                return (sp if name == "is_some" else "(!%s)" % sp), "bool", None
+            if kind == "flags" and name in ("contains", "intersects") and len(args) == 1:
+                fs, fty = self.flagset(args[0])
+                if self.k["flags"][path][0] != fty:
+                    raise Unsupported("flags of different types")
+                names = [n for c, n in self.flag_params(path) if c in fs]
+                if name == "contains":      # every flag of the argument is set (vacuously true for the empty set)
+                    return ("(%s)" % " && ".join(names) if names else "true"), "bool", None
+                return ("(%s)" % " || ".join(names) if names else "false"), "bool", None   # some flag of the argument is set
+            if kind == "flags" and name in ("is_empty", "is_all") and not args:
+                names = [n for c, n in self.flag_params(path)]
+                return "(%s)" % " && ".join((n if name == "is_all" else "(!%s)" % n) for n in names), "bool", None
+            if kind == "struct":
+                return self.call_on_path(path, name, args)
+            raise Unsupported("method %s on %s" % (name, path))
+        if isinstance(t, tuple) and t[0] == "flagconst":
+            raise Unsupported("method %s on a flag constant" % name)
+        if is_opt(t) and name in ("unwrap", "expect") and isinstance(r, str):
+            # a panic site: `_ok` demands `Some`
+            return "(Option.getD %s 0)" % r, t[1], self.conj(ro, "(Option.isSome %s)" % r)
+        if is_opt(t) and name in ("is_some", "is_none") and not args and isinstance(r, str):
+            return ("(Option.isSome %s)" if name == "is_some" else "(!Option.isSome %s)") % r, "bool", ro
         if t == "f64":
             if name in ("ceil", "floor") and not args:
                 n, d = r[1], r[2]
@@ -814,18 +1509,19 @@ class Tr:
         if t == "tryfrom":
             if name == "ok" and not args:
                 a, src = r[1], r[2]
-                target = want[1] if isinstance(want, tuple) else "usize"
+                target = want[1] if is_opt(want) else "usize"
                 lo, hi = INT_TYPES.get(target, INT_TYPES["usize"])
                 return "(if %d ≤ %s ∧ %s ≤ %d then some %s else none)" % (lo, a, a, hi, a), ("opt", target), ro
             raise Unsupported("method %s on try_from" % name)
         if t in self.enums or (t == self.self_ty and t):
-            for ln, (impl, fn, pn, pt, rt) in self.sigs.items():
-                if impl == t and fn == name:
+            for ln, (impl, fn, pn, pt, rt, ex) in self.sigs.items():
+                if impl == t and fn == name and ex["origins"][:1] == [("self",)]:
                     vals, oks = [r], [ro]
                     for a_, pt_ in zip(args, pt[1:]):
                         v, _, o = self.e(a_, pt_)
                         vals.append(v)
                         oks.append(o)
+                    self.used_groups.add(ex["group"])
                     callok = "%s_ok %s" % (ln, " ".join(vals))
                     return "(%s %s)" % (ln, " ".join(vals)), rt, self.conj(*(oks + [callok]))
         if name == "into" and not args:
@@ -857,17 +1553,74 @@ class Tr:
         raise Unsupported("method %s" % name)
 
     def match(self, x, want):
-        s, st, so = self.e(x[1])
-        if not (st in self.enums or self.is_int(st) or st == "lit"):
-            raise Unsupported("match on %s" % (st,))
+        # the scrutinee: a scalar (integer / field-less enum), a declared Option field (patterns `Some(..)`, `None`, `_`) or a
+        # parameter that is an enum with payloads (patterns `Variant(..)`, `_`)
+        mode, s, st, so, path, pvar = "scalar", None, None, None, None, None
+        if x[1][0] == "var" and isinstance(self.env.get(x[1][1]), tuple) and self.env[x[1][1]][0] == "payload":
+            mode, pvar = "payload", x[1][1]
+        else:
+            path = self.resolve_path(x[1])
+            if path is not None and self.path_kind(path) == "opt":
+                mode = "opt"
+            else:
+                s, st, so = self.ev(x[1])
+                if isinstance(s, str) and is_opt(st) and (self.is_int(st[1]) or st[1] in self.enums):
+                    mode = "optval"     # an `Option<scalar>` value: patterns `Some(v)`, `Some(_)`, `None`, `_`
+                elif not (isinstance(s, str) and (st in self.enums or self.is_int(st) or st == "lit")):
+                    raise Unsupported("match on %s" % (st,))
         arms = x[2]
         val, ok, ty = None, None, None
         # built from the last arm backwards
         out = []
-        for pats, body in arms:
+        for pats, body, guard in arms:
             conds = []
             bind = None
+            binds = []          # (rust name, lean value, type) bound by a payload pattern
+            alias = None        # (rust name, path, by reference) bound by `Some(name)`
             for p in pats:
+                if mode == "opt":
+                    if p[0] == "pctor" and p[1] == "Some":
+                        if p[2] is not None:
+                            if p[2][0] != "name" or len(pats) > 1:
+                                raise Unsupported("pattern inside Some(..)")
+                            alias = (p[2][1], path, p[3])
+                        conds.append("%s = true" % self.some_param(path))
+                    elif p[0] == "pvariant" and p[1] == "None":
+                        conds.append("%s = false" % self.some_param(path))
+                    elif p[0] == "pwild":
+                        conds = None
+                        break
+                    else:
+                        raise Unsupported("pattern on an Option")
+                    continue
+                if mode == "optval":
+                    if p[0] == "pctor" and p[1] == "Some":
+                        if p[2] is not None:
+                            if p[2][0] != "name" or len(pats) > 1:
+                                raise Unsupported("pattern inside Some(..)")
+                            binds = [(p[2][1], "(Option.getD %s 0)" % s, st[1])]
+                        conds.append("Option.isSome %s = true" % s)
+                    elif p[0] == "pvariant" and p[1] == "None":
+                        conds.append("Option.isSome %s = false" % s)
+                    elif p[0] == "pwild":
+                        conds = None
+                        break
+                    else:
+                        raise Unsupported("pattern on an Option")
+                    continue
+                if mode == "payload":
+                    c = self.payload_cond(pvar, p)
+                    if c is None:
+                        if p[0] == "pbind":
+                            raise Unsupported("binding a whole payload enum")
+                        conds = None
+                        break
+                    conds.append(c)
+                    bs = self.payload_binds(pvar, p)
+                    if bs and len(pats) > 1:
+                        raise Unsupported("bindings in alternatives")
+                    binds = bs
+                    continue
                 if p[0] == "plit":
                     conds.append("%s = %d" % (s, p[1]))
                 elif p[0] == "pvariant":
@@ -882,24 +1635,54 @@ class Tr:
                     conds = None
                     bind = p[1]
                     break
+                else:
+                    raise Unsupported("pattern on a scalar")
             saved = dict(self.env)
             if bind:
                 self.env[bind] = st
+            for b, lv, bt in binds:
+                self.env[b] = bt
+            if alias:
+                self.env[alias[0]] = ("alias", alias[1], alias[2])
+                if not alias[2]:
+                    self.env[("copied", alias[1])] = True
+            def wrap(inner):
+                if bind:
+                    inner = "(let %s := %s; %s)" % (self.lname(bind), s, inner)
+                for b, lv, bt in reversed(binds):
+                    inner = "(let %s := %s; %s)" % (self.lname(b), lv, inner)
+                return inner
+            g, go = None, None
+            if guard is not None:
+                g, gt, go = self.ev(guard, "bool")
+                if gt != "bool":
+                    raise Unsupported("match guard that is not a bool")
+                g, go = wrap(g), (wrap(go) if go else None)
             v, t, o = self.blk(body, want if ty in (None, "lit") else ty)
             self.env = saved
-            if bind:
-                v = "(let %s := %s; %s)" % (self.lname(bind), s, v)
-                o = "(let %s := %s; %s)" % (self.lname(bind), s, o) if o else None
+            v = wrap(v)
+            o = wrap(o) if o else None
             if ty in (None, "lit"):
                 ty = t
-            out.append((conds, v, o))
-        if out[-1][0] is not None:
+            out.append((conds, v, o, g, go))
+        if out[-1][0] is not None or out[-1][3] is not None:
             # no catch-all arm: Rust checked exhaustiveness over the enum; values outside it are unreachable
-            out.append((None, "0", None))
+            out.append((None, "0" if (ty in self.enums or self.is_int(ty) or ty in ("lit", "result", None)) else "default", None, None, None))
         val, ok = out[-1][1], out[-1][2]
-        anyok = any(o for _, _, o in out)
-        for conds, v, o in reversed(out[:-1]):
-            c = " ∨ ".join(conds)
+        anyok = any(o or go for _, _, o, _, go in out)
+        for conds, v, o, g, go in reversed(out[:-1]):
+            c = " ∨ ".join(conds) if conds is not None else None
+            if g is not None:
+                # `pat if guard`: taken when the pattern matches and the guard (evaluated only then) holds
+                full = "(%s) ∧ %s = true" % (c, g) if c is not None else "%s = true" % g
+                if anyok:
+                    gok = ("(if %s then %s else true)" % (c, go) if c is not None else go) if go else None
+                    ok = "(if %s then %s else %s)" % (full, o or "true", ok or "true")
+                    ok = self.conj(gok, ok)
+                val = "(if %s then %s else %s)" % (full, v, val)
+                continue
+            if c is None:
+                raise Unsupported("an arm after a catch-all arm")
             val = "(if %s then %s else %s)" % (c, v, val)
             if anyok:
                 ok = "(if %s then %s else %s)" % (c, o or "true", ok or "true")
@@ -939,14 +1722,36 @@ class Tr:
         outs = self.k.get("outputs")
         if not outs:
             return "()", "unit", None
+        return "(%s)" % ", ".join(self.output_values()), "outputs", None
+
+    def output_values(self):
+        """the current values of the declared output fields (`a_b` = field b of a; `p.q.f` = field f of the path p.q;
+        `p.q?` = whether the Option field p.q is `Some`)"""
         vals = []
-        for o in outs:
-            if o in self.env:
+        for o in self.k.get("outputs", []):
+            if o.endswith("?"):
+                vals.append(self.some_param(o[:-1]))
+            elif "." in o:
+                obj, f = o.rsplit(".", 1)
+                vals.append(self.free_field(obj, f)[0])
+            elif o in self.env:
                 vals.append(o)
             else:
                 obj, f = o.split("_", 1)
                 vals.append(self.free_field(obj, f)[0])
-        return "(%s)" % ", ".join(vals), "outputs", None
+        return vals
+
+    def output_types(self):
+        tys = []
+        for o in self.k.get("outputs", []):
+            if o.endswith("?"):
+                tys.append("bool")
+            elif "." in o:
+                obj, f = o.rsplit(".", 1)
+                tys.append(self.free_field(obj, f)[1])
+            else:
+                tys.append("int")
+        return tys
 
     def bind(self, name, v, t, rest, want, o):
         """let name := v; rest"""
@@ -975,11 +1780,11 @@ class Tr:
             body = list(ex[1])
             if body and body[-1][0] in ("expr", "return") and body[-1][1][0] == "panic":
                 return "default", want or "lit", "false"
-            if not body or body[-1][0] != "return":
+            if not body or body[-1][0] != "return" or (len(body[-1]) > 2 and body[-1][2] == "explicit"):
                 raise Unsupported("tuple-valued block without a tail")
             return self.stmts(body[:-1] + [("lettuple", names, body[-1][1])] + rest, want)
         if k == "if":
-            c, _, co = self.e(ex[1], "bool")
+            c, _, co = self.ev(ex[1], "bool")
             env0, fd0 = dict(self.env), dict(self.fden)
             a, at_, ao = self.lettuple(names, ("block", ex[2]), rest, want)
             self.env, self.fden = dict(env0), dict(fd0)
@@ -988,11 +1793,140 @@ class Tr:
             ok = "(if %s then %s else %s)" % (c, ao or "true", bo or "true") if (ao or bo) else None
             return "(if %s then %s else %s)" % (c, a, b), at_, self.conj(co, ok)
         if k == "match":
-            arms = [(pats, [("lettuple", names, ("block", body))] + rest) for pats, body in ex[2]]
+            arms = [(pats, [("lettuple", names, ("block", body))] + rest, guard) for pats, body, guard in ex[2]]
             return self.match(("match", ex[1], arms), want)
         if k == "panic":
             return "default", want or "lit", "false"
-        raise Unsupported("tuple pattern bound to %s" % k)
+        # any other expression of a tuple type (e.g. the call of a translated function): bind it, then its components
+        v, t, o = self.ev(ex)
+        if not (is_tup(t) and len(t[1]) == len(names) and isinstance(v, str)):
+            raise Unsupported("tuple pattern bound to %s" % k)
+        self.ntmp = getattr(self, "ntmp", 0) + 1
+        tmp = "tup__%d" % self.ntmp
+        n = len(names)
+        ss = []
+        for i, (nm, ti) in enumerate(zip(names, t[1])):
+            proj = ".2" * i + (".1" if i < n - 1 else "")
+            self.env["%s__p%d" % (tmp, i)] = ti
+            ss.append(("let", nm, ti, ("rawlean", "%s%s" % (tmp, proj), ti)))
+        rv, rt, ro = self.stmts(ss + rest, want)
+        return "(let %s := %s; %s)" % (tmp, v, rv), rt, self.conj(o, "(let %s := %s; %s)" % (tmp, v, ro) if ro else None)
+
+    def is_declared_scalar(self, x):
+        return x[0] == "field" and self.resolve_path(x[1]) is not None and self.declared_field(self.resolve_path(x[1]), x[2])
+
+    def open_chain(self, x):
+        """an `if` / `else if` chain without a final `else`"""
+        while x[0] == "if":
+            if x[3] is None:
+                return True
+            if len(x[3]) == 1 and x[3][0][0] == "return" and len(x[3][0]) > 2:
+                x = x[3][0][1]
+            else:
+                return False
+        return False
+
+    def struct_decl(self, name):
+        files = self.k.get("structs", {})
+        if name not in files:
+            raise Unsupported("struct %s is not declared for this kernel" % name)
+        return struct_fields(self.load(files[name]), name)
+
+    def struct_value(self, x, depth=0):
+        """`Name { f: e, .., ..Default::default() }` -> [(field, lean value, type, ok)] for ALL fields of the struct as declared in
+        the source, in the order of evaluation (written fields first, then the base)"""
+        name, items, base = x[1], x[2], x[3]
+        decl = self.struct_decl(name)
+        given = {}
+        out = []
+        for f, ex in items:
+            if f not in decl or f in given:
+                raise Unsupported("field %s of %s" % (f, name))
+            ty = decl[f]
+            if not (ty in INT_TYPES or ty == "bool" or ty in self.enums):
+                raise Unsupported("field %s: %s of %s" % (f, ty, name))
+            v, t, o = self.e(ex, ty)
+            if not isinstance(v, str) or (t != ty and t != "lit"):
+                raise Unsupported("value of field %s of %s" % (f, name))
+            given[f] = True
+            out.append((f, v, ty, o))
+        missing = [f for f in decl if f not in given]
+        if missing:
+            if base is None:
+                raise Unsupported("struct literal of %s without %s" % (name, ", ".join(missing)))
+            if base != ("default",) or depth > 0:
+                raise Unsupported("struct base that is not Default::default()")
+            # `impl Default for Name { fn default() -> Name { Name { .. } } }`, evaluated in an empty scope
+            _, _, body = find_fn(self.load(self.k["structs"][name]), "Default for %s" % name, "default")
+            st = Parser(lex(body)).block()
+            if len(st) != 1 or st[0][0] != "return" or st[0][1][0] != "structlit" or st[0][1][1] not in (name, "Self"):
+                raise Unsupported("Default for %s is not one struct literal" % name)
+            saved = self.env
+            self.env = {}
+            try:
+                _, dv = self.struct_value(("structlit", name, st[0][1][2], st[0][1][3]), depth + 1)
+            finally:
+                self.env = saved
+            for f, v, ty, o in dv:
+                if f in missing:
+                    out.append((f, v, ty, o))
+        return name, out
+
+    def let_struct(self, var, x, rest, want):
+        """`let v = Name { .. };`: one Lean `let` per field"""
+        name, fv = self.struct_value(x)
+        loc = {}
+        def go(i):
+            if i == len(fv):
+                self.env[var] = ("structlocal", name, dict(loc))
+                return self.stmts(rest, want)
+            f, v, ty, o = fv[i]
+            ln = "%s__%s" % (self.lname(var), f)
+            loc[f] = (ln, ty)
+            self.env[ln] = ty
+            rv, rt, ro = go(i + 1)
+            return "(let %s := %s; %s)" % (ln, v, rv), rt, self.conj(o, "(let %s := %s; %s)" % (ln, v, ro) if ro else None)
+        return go(0)
+
+    def assign_opt(self, path, rhs, rest, want):
+        """`<Option field> = None;` / `= Some(<struct local>);` / `= Some(Name { .. });`"""
+        if ("copied", path) in self.env:
+            raise Unsupported("assignment to %s while a copy of it is in use" % path)
+        decl = self.k["opts"][path]
+        some = self.pname(path, "is_some")
+        self.some_param(path)
+        if rhs == ("var", "None"):
+            return self.bind(some, "false", "bool", rest, want, None)
+        if not (rhs[0] == "call" and rhs[1] == ["Some"] and len(rhs[2]) == 1):
+            raise Unsupported("value assigned to the Option field %s" % path)
+        a = rhs[2][0]
+        if a[0] == "structlit":
+            tmp = "%s__new" % self.pname(path, "v")
+            return self.let_struct(tmp, a, [("assign", ("field",) + tuple(self.path_ast(path)), ("call", ["Some"], [("var", tmp)]))] + rest, want)
+        if not (a[0] == "var" and isinstance(self.env.get(a[1]), tuple) and self.env[a[1]][0] == "structlocal"):
+            raise Unsupported("value assigned to the Option field %s" % path)
+        _, sname, loc = self.env[a[1]]
+        if set(loc) != set(decl) or any(loc[f][1] != decl[f] for f in decl):
+            raise Unsupported("the fields of %s and the fields declared for %s differ" % (sname, path))
+        for f in decl:
+            self.free_field(path, f)
+        fs = list(decl)
+        def go(i):
+            if i == len(fs):
+                return self.bind(some, "true", "bool", rest, want, None)
+            f = fs[i]
+            ln = self.pname(path, f)
+            self.env[ln] = decl[f]
+            rv, rt, ro = go(i + 1)
+            return "(let %s := %s; %s)" % (ln, loc[f][0], rv), rt, ("(let %s := %s; %s)" % (ln, loc[f][0], ro) if ro else None)
+        return go(0)
+
+    def path_ast(self, path):
+        parts = path.split(".")
+        x = ("var", parts[0])
+        for q in parts[1:-1]:
+            x = ("field", x, q)
+        return (x, parts[-1])
 
     def stmts(self, ss, want):
         if not ss:
@@ -1009,18 +1943,51 @@ class Tr:
             r = self.lettuple(s[1], s[2], rest, want)
             self.env, self.fden = env0, fd0
             return r
+        if s[0] == "bindpat":
+            # the bindings of `if let PAT = scrut` (the test itself is the `islet` condition)
+            pat, scrut = s[1], s[2]
+            if scrut[0] == "var" and isinstance(self.env.get(scrut[1]), tuple) and self.env[scrut[1]][0] == "payload":
+                ss = [("let", b, bt, ("rawlean", lv, bt)) for b, lv, bt in self.payload_binds(scrut[1], pat)]
+                return self.stmts(ss + rest, want)
+            if pat[0] == "pctor" and pat[1] == "Some" and pat[2] is not None:
+                if pat[2][0] != "name":
+                    raise Unsupported("pattern inside Some(..)")
+                path = self.resolve_path(scrut)
+                self.env[pat[2][1]] = ("alias", path, pat[3])
+                if not pat[3]:
+                    self.env[("copied", path)] = True
+            return self.stmts(rest, want)
+        if s[0] == "let" and s[3][0] not in ("structlit",) and self.resolve_path(s[3]) is not None and \
+                self.path_kind(self.resolve_path(s[3])) is not None and not self.is_declared_scalar(s[3]):
+            # `let t = self.transform;` / `let info = self.info();`: a name for a declared struct / bitflags / Option field.
+            # The name stands for a COPY or a shared reference: assigning to the fields of that path while it is alive is refused
+            path = self.resolve_path(s[3])
+            self.env[s[1]] = ("alias", path, False)
+            self.env[("copied", path)] = True
+            return self.stmts(rest, want)
+        if s[0] == "let" and s[3][0] == "structlit":
+            return self.let_struct(s[1], s[3], rest, want)
         if s[0] == "assign" and s[1][0] == "field":
-            if s[1][1][0] != "var":
+            obj = self.resolve_path(s[1][1])
+            if obj is None:
                 raise Unsupported("assignment to a nested field")
-            obj, f = s[1][1][1], s[1][2]
-            fields = self.k.get("fields", {})
-            if obj not in fields or f not in fields[obj]:
+            f = s[1][2]
+            if s[1][1][0] == "var" and isinstance(self.env.get(s[1][1][1]), tuple) and self.env[s[1][1][1]][0] == "alias" and not self.env[s[1][1][1]][2]:
+                raise Unsupported("assignment through a name that is a copy")
+            if self.path_kind(obj + "." + f) == "opt":
+                return self.assign_opt(obj + "." + f, s[2], rest, want)
+            if ("copied", obj) in self.env:
+                raise Unsupported("assignment to %s while a copy of it is in use" % obj)
+            if not self.declared_field(obj, f):
                 raise Unsupported("assignment to undeclared field %s.%s" % (obj, f))
-            name = "%s_%s" % (obj, f)
-            v, t, o = self.e(s[2], fields[obj][f])
+            fty = (self.k.get("fields", {}).get(obj, {}).get(f) or self.k.get("opts", {}).get(obj, {}).get(f))
+            name = self.pname(obj, f)
+            v, t, o = self.ev(s[2], fty)
             if t == "f64":
                 raise Unsupported("float stored in a field")
-            return self.bind(name, v, fields[obj][f], rest, want, o)
+            if not isinstance(v, str):
+                raise Unsupported("value stored in a field")
+            return self.bind(name, v, fty, rest, want, o)
         if s[0] == "let" or s[0] == "assign":
             if s[0] == "let":
                 name, ann, ex = s[1], s[2], s[3]
@@ -1028,13 +1995,24 @@ class Tr:
                 if s[1][0] == "field":
                     raise Unsupported("assignment to a field")
                 name, ann, ex = s[1][1], self.env.get(s[1][1]), s[2]
-            v, t, o = self.e(ex, ann)
+            v, t, o = self.ev(ex, ann)
             if ann and ann != "lit" and t != "f64":
                 t = ann
-            if t == "tuple":
+            if is_tup(t):
                 raise Unsupported("tuple bound to one name")
+            if t != "f64" and not isinstance(v, str):
+                raise Unsupported("a value of type %s bound to a name" % (t,))
             return self.bind(name, v, t, rest, want, o)
         if s[0] == "return":
+            if len(s) > 2 and s[2] == "explicit" and self.valdepth > 0:
+                raise Unsupported("`return` inside an expression whose value is used")
+            if len(s) == 2 and s[1][0] == "if" and self.open_chain(s[1]):
+                # an `if` (chain) without a final `else` at the end of a block: a statement of type (), control continues
+                return self.stmts([("expr", s[1])] + rest, want)
+            if len(s) > 2 and s[2] == "elseif" and (rest or self.open_chain(s[1])):
+                # the nested `if` of an `else if` chain that is a STATEMENT (something follows, or the chain has no final
+                # `else`): control continues with what follows
+                return self.stmts([("expr", s[1])] + rest, want)
             if s[1][0] == "unit" and self.k.get("outputs"):
                 return self.finish()
             if self.k.get("index") and s[1][0] == "method" and s[1][2] == "map":
@@ -1042,11 +2020,18 @@ class Tr:
             v, t, o = self.e(s[1], want)
             if t == "f64":
                 raise Unsupported("float result")
+            if not isinstance(v, str):
+                raise Unsupported("result of type %s" % (t,))
+            if self.k.get("outputs") and want != "unit" and self.valdepth == 0 and not self.in_local and \
+                    not (isinstance(t, tuple) and t[0] == "withoutputs"):
+                # `&mut self` with a result, at the end of a path through the function: (result, final values of the declared
+                # output fields).  (An `if` / `match` in tail position has done this in its branches already.)
+                return "(%s, %s)" % (v, ", ".join(self.output_values())), ("withoutputs", t), o
             return v, t, o
         if s[0] == "expr":
             ex = s[1]
             if ex[0] == "if":
-                c, _, co = self.e(ex[1], "bool")
+                c, _, co = self.ev(ex[1], "bool")
                 env0, fd0 = dict(self.env), dict(self.fden)
                 a, at_, ao = self.stmts(list(ex[2]) + rest, want)
                 self.env, self.fden = dict(env0), dict(fd0)
@@ -1087,23 +2072,51 @@ def parse_params(text, impl, enums):
             continue
         m = re.match(r"(?:mut\s+)?(\w+)\s*:\s*&?\s*(?:mut\s+)?([\w<>' ]+)$", p)
         if not m:
+            # a newtype pattern `Name(x): Name` (e.g. `ChunkType(type_): ChunkType`): x is the wrapped value
+            m2 = re.match(r"(\w+)\s*\(\s*(\w+)\s*\)\s*:\s*(\w+)$", p)
+            if m2 and m2.group(1) == m2.group(3):
+                out.append((m2.group(2), ("newtype", m2.group(1))))
+                continue
             raise Unsupported("parameter %r" % p)
         out.append((m.group(1), m.group(2)))
     return out
 
 
+def lean_type(t):
+    """Lean type of a value of the (translator's) Rust type t"""
+    if t == "bool":
+        return "Bool"
+    if is_opt(t):
+        return "Option Int"
+    if is_tup(t):
+        return " × ".join(lean_type(c) for c in t[1])
+    if t == "unit":
+        return "Unit"
+    return "Int"
+
+
 def translate_all():
     srcs = {}
     enums = {}
-    common = strip_comments(open(os.path.join(REPO, "src/common.rs")).read())
-    for en in ("ColorType", "BitDepth", "BytesPerPixel"):
-        tab = enum_table(common, en)
+
+    def load(file):
+        path = os.path.join(REPO, file)
+        if path not in srcs:
+            srcs[path] = strip_comments(open(path).read())
+        return srcs[path]
+
+    for file, en in ENUMS:
+        try:
+            tab = enum_table(load(file), en)
+        except OSError:
+            tab = None
         if tab:
             enums[en] = tab
     sigs = {}
     results = []
     broken = []
     defs = []
+    used = {}
     for k in KERNELS:
         try:
             path = os.path.join(REPO, k["file"])
@@ -1112,34 +2125,79 @@ def translate_all():
             params_text, ret, body = find_fn(srcs[path], k["impl"], k["fn"])
             impl_ty = k["impl"] if k["impl"] in enums else None
             params = parse_params(params_text, impl_ty, enums)
-            tr = Tr(k, enums, sigs)
+            tr = Tr(k, enums, sigs, load)
             tr.self_ty = impl_ty
             lean_params = []
+            origins = []
+            nargs = 0
             for (n, t) in params:
                 if n == "self":
                     if impl_ty:
                         lean_params.append(("self_", impl_ty))
+                        origins.append(("self",))
                     continue  # struct receiver: its fields become parameters on use
-                if t in INT_TYPES or t == "bool" or t in enums:
+                if isinstance(t, tuple) and t[0] == "newtype":
+                    # `Name(x): Name` with `struct Name(pub [T; N]);`: the N elements are the parameters x_0 .. x_{N-1}
+                    arr = newtype_array(srcs[path], t[1])
+                    if not arr or arr[0] not in INT_TYPES:
+                        raise Unsupported("parameter %s: %s is not a newtype of an integer array" % (n, t[1]))
+                    tr.env[n] = ("array", arr[0], arr[1])
+                    for i in range(arr[1]):
+                        lean_params.append(("%s_%d" % (tr.lname(n), i), arr[0]))
+                        origins.append(("arg", nargs))
+                    nargs += 1
+                elif t in INT_TYPES or t == "bool" or t in enums:
                     tr.env[n] = t
                     lean_params.append((tr.lname(n), t))
+                    origins.append(("arg", nargs))
+                    nargs += 1
                 elif n in k.get("fields", {}):
                     continue
+                elif n in k.get("payload", {}) and k["payload"][n][0] == t:
+                    # an enum whose variants carry one struct each: a tag (index of the variant in the declaration) and the
+                    # declared fields of the declared variants
+                    _, pfile, pdecl = k["payload"][n]
+                    variants = payload_enum(load(pfile), t)
+                    decl = {}
+                    lean_params.append(("%s_tag" % tr.lname(n), "usize"))
+                    origins.append(("tag", n))
+                    for vname, (sname, sfile, fs) in pdecl.items():
+                        if (vname, sname) not in variants:
+                            raise Unsupported("variant %s(%s) of %s" % (vname, sname, t))
+                        if fs:
+                            sf = struct_fields(load(sfile), sname)
+                            for f, fty in fs.items():
+                                if sf.get(f) != fty:
+                                    raise Unsupported("field %s: %s of %s" % (f, fty, sname))
+                                lean_params.append(("%s_%s_%s" % (tr.lname(n), vname, f), fty))
+                                origins.append(("payload", n, vname, f))
+                        decl[vname] = (sname, fs)
+                    tr.payload[n] = (variants, decl)
+                    tr.env[n] = ("payload", n)
                 else:
                     raise Unsupported("parameter %s: %s" % (n, t))
+            if k.get("fixed"):
+                tr.declare_fixed()
             mret = re.match(r"impl\s+Iterator<Item\s*=\s*(\w+)>", ret)
             if mret:
                 ret = mret.group(1)
             ret_ty = Parser(lex(ret)).type_() if ret else "unit"
             if ret_ty == "Self":
                 ret_ty = k["impl"]
+            if is_opt(ret_ty) and ret_ty[1] == "Self":
+                ret_ty = ("opt", k["impl"])
             stmts = Parser(lex(body)).block()
             val, ty, ok = tr.stmts(stmts, ret_ty)
             all_params = lean_params + tr.params
-            sigs[k["lean"]] = (k["impl"] if k["impl"] in enums else None, k["fn"], [p[0] for p in all_params], [p[1] for p in all_params], ret_ty)
-            lean_ret = "Bool" if ret_ty == "bool" else ("Option Int" if isinstance(ret_ty, tuple) else "Int")
+            origins = origins + [tr.origin.get(p[0], ("free", p[0])) for p in tr.params]
+            extra = dict(group=k["group"], rawimpl=k["impl"], origins=origins, outputs=bool(k.get("outputs")),
+                         flagtypes={q: v[0] for q, v in k.get("flags", {}).items()})
+            sigs[k["lean"]] = (k["impl"] if k["impl"] in enums else None, k["fn"], [p[0] for p in all_params], [p[1] for p in all_params], ret_ty, extra)
+            lean_ret = "Bool" if ret_ty == "bool" else ("Option Int" if is_opt(ret_ty) else (lean_type(ret_ty) if is_tup(ret_ty) else "Int"))
             if ty == "outputs":
                 lean_ret = " × ".join("Int" for _ in k["outputs"])
+            elif k.get("outputs") and ret_ty != "unit":
+                lean_ret = " × ".join([lean_ret] + [("Bool" if t_ == "bool" else "Int") for t_ in tr.output_types()])
             binder = lambda p: "(%s : %s)" % (p[0], "Bool" if p[1] == "bool" else "Int")
             sig = " ".join(binder(p) for p in all_params)
             doc = "/-- `%s%s` (%s), parameters %s -/" % ((k["impl"] + "::") if k["impl"] else "", k["fn"], k["file"],
@@ -1147,9 +2205,13 @@ def translate_all():
             defs.append((k["group"], "%s\ndef %s %s : %s :=\n  %s\n\n/-- no overflow, no division by zero, no panic on this run -/\ndef %s_ok %s : Bool :=\n  %s\n" % (
                 doc, k["lean"], sig, lean_ret, val, k["lean"], sig, ok or "true")))
             results.append((k["group"], k["lean"]))
-        except (Unsupported, IndexError, KeyError, ValueError, OSError) as ex:
+            used.setdefault(k["group"], set()).update(tr.used_groups)
+        except (Unsupported, IndexError, KeyError, ValueError, TypeError, AttributeError, AssertionError, OSError) as ex:
             broken.append((k["lean"], "%s: %s" % (type(ex).__name__, ex)))
-    return defs, results, broken, enums
+            # the text of the last successful translation is kept (see main): the group still builds, and `./check`
+            # reports the kernel as no longer tied by translation (tie by correspondence only)
+            defs.append((k["group"], ("KEEP", k["lean"])))
+    return defs, results, broken, enums, used
 
 
 PRELUDE = '''/-
@@ -1173,20 +2235,36 @@ def optLt : Option Int → Option Int → Bool
 '''
 
 
+def kept_block(old_text, name):
+    """the definitions `name` and `name_ok` (with their doc comments) as the generated file of the last run has them, or ''"""
+    if not old_text:
+        return ""
+    m = re.search(r"(/-- `[^\n]*\n)def %s [^\n]*\n.*?\ndef %s_ok [^\n]*\n[^\n]*\n" % (re.escape(name), re.escape(name)), old_text, re.S)
+    if not m:
+        return ""
+    # the doc comment matched may belong to an earlier kernel when `name` is not the first: cut at the last doc start
+    blk = m.group(0)
+    i = blk.rfind("/-- `", 0, blk.find("\ndef %s " % name) + 1)
+    return blk[i:] if i >= 0 else blk
+
+
 def main():
-    defs, ok, broken, enums = translate_all()
+    defs, ok, broken, enums, used = translate_all()
     for gi, g in enumerate(GROUPS):
         text = PRELUDE
         if gi > 0:
             text += "import PngVerif.Generated.Kernels%s\n" % GROUPS[0]
+        for g2 in GROUPS[1:gi]:
+            if g2 in used.get(g, ()):
+                text += "import PngVerif.Generated.Kernels%s\n" % g2
         text += "set_option linter.unusedVariables false\nnamespace Png.Gen\n\n"
         if gi == 0:
             text += OPT
-        text += "\n".join(d for (gg, d) in defs if gg == g)
-        text += "\n/-- kernels of this group translated on this run -/\ndef translated%s : List String := [%s]\n" % (g, ", ".join('"%s"' % n for (gg, n) in ok if gg == g))
-        text += "\nend Png.Gen\n"
         out = os.path.join(OUTDIR, "Kernels%s.lean" % g)
         old = open(out).read() if os.path.exists(out) else None
+        text += "\n".join((d if isinstance(d, str) else kept_block(old, d[1])) for (gg, d) in defs if gg == g)
+        text += "\n/-- kernels of this group translated on this run -/\ndef translated%s : List String := [%s]\n" % (g, ", ".join('"%s"' % n for (gg, n) in ok if gg == g))
+        text += "\nend Png.Gen\n"
         if old != text:
             with open(out, "w") as f:
                 f.write(text)
